@@ -12,7 +12,10 @@ import time
 from . import build
 
 VERIF = build.VERIF
-OUT = os.path.join(VERIF, "out")
+# sensitivity runs against scratch trees must not overwrite the real evidence / violation files
+SCRATCH = os.environ.get("VERIF_SCRATCH")
+OUT = os.path.join(SCRATCH, "out") if SCRATCH else os.path.join(VERIF, "out")
+EVIDENCE_DIR = os.path.join(SCRATCH, "evidence") if SCRATCH else os.path.join(VERIF, "evidence")
 KNOWN_FILE = os.path.join(VERIF, "known_findings.json")
 
 RUN_ENV = {
@@ -252,7 +255,7 @@ def merge_stats(stats_list):
 
 
 def write_evidence(prop, tier, level, coverage, wall, violations, assumptions):
-    os.makedirs(os.path.join(VERIF, "evidence"), exist_ok=True)
+    os.makedirs(EVIDENCE_DIR, exist_ok=True)
     ev = {
         "property_id": prop,
         "tier": tier,
@@ -263,7 +266,7 @@ def write_evidence(prop, tier, level, coverage, wall, violations, assumptions):
         "wall_s": round(wall, 2),
         "violations": violations,
     }
-    path = os.path.join(VERIF, "evidence", prop + ".json")
+    path = os.path.join(EVIDENCE_DIR, prop + ".json")
     with open(path + ".tmp", "w") as f:
         json.dump(ev, f, indent=1, sort_keys=True)
     os.replace(path + ".tmp", path)
